@@ -269,12 +269,17 @@ func checkLocalRefs(opts *FlattenOpts) error {
 	return nil
 }
 
-// isAbsent tells whether a JSON pointer has been resolved as a nil pointer,
+// isAbsent tells whether a JSON pointer has been resolved as a nil pointer, map or slice,
 // i.e. designates an optional part which is absent from the document.
 func isAbsent(target any) bool {
 	v := reflect.ValueOf(target)
 
-	return v.Kind() == reflect.Ptr && v.IsNil()
+	switch v.Kind() { //nolint:exhaustive // all other kinds may not be nil
+	case reflect.Ptr, reflect.Map, reflect.Slice:
+		return v.IsNil()
+	default:
+		return false
+	}
 }
 
 func nameInlinedSchemas(opts *FlattenOpts) error {
